@@ -284,6 +284,11 @@ def _api_layer(case, log, V, probe):
                         if len(parents) != 1 or len(parents[0]) != min(cap, len(ids)) or merged[key] != ids:
                             V('partition-differs-from-truth', 'api/cap', truth=sorted(ids)[:8], parents=parents[:3], **ctx)
                             break
+                        # TF of the parent counts the fragments that did not fit: n + overflow = size of the truth class
+                        tf = {x['TF'] for g in mols for x in g if x['id'] in set(parents[0])}
+                        if tf != {len(ids)}:
+                            V('count-tags-wrong', 'api/TF-under-cap', truth_size=len(ids), TF=sorted(map(str, tf)), parent=parents[0][:6], **ctx)
+                            break
     return n_eval
 
 
